@@ -129,7 +129,54 @@ func mutateEML(r *Rng, eml []byte) []byte {
 	lines := strings.Split(string(eml), "\r\n")
 	nm := 1 + r.Intn(3)
 	for k := 0; k < nm; k++ {
-		switch r.Intn(8) {
+		switch r.Intn(10) {
+		case 8, 9:
+			// damage an encoded body line: cut 1..3 characters off its end, drop or add '=' padding, put a
+			// character outside the alphabet into it, glue it to the next line
+			var cand []int
+			inBody := false
+			for i, l := range lines {
+				if l == "" {
+					inBody = true
+				} else if strings.HasPrefix(l, "--") {
+					inBody = false
+				}
+				if inBody && len(l) >= 2 {
+					cand = append(cand, i)
+				}
+			}
+			if len(cand) == 0 {
+				break
+			}
+			// the last line of a part is where padding lives
+			i := cand[r.Intn(len(cand))]
+			if r.Chance(60) {
+				for j := i; j+1 < len(lines) && lines[j+1] != "" && !strings.HasPrefix(lines[j+1], "--"); j++ {
+					i = j + 1
+				}
+			}
+			l := lines[i]
+			switch r.Intn(7) {
+			case 0:
+				l = l[:len(l)-1]
+			case 1:
+				l = l[:max(0, len(l)-1-r.Intn(3))]
+			case 2:
+				l = strings.TrimRight(l, "=")
+			case 3:
+				l = strings.TrimRight(l, "=") + "="
+			case 4:
+				l += "=" + strings.Repeat("=", r.Intn(3))
+			case 5:
+				k := r.Intn(len(l))
+				l = l[:k] + string("!*-_ =\x00\xff"[r.Intn(8)]) + l[k:]
+			default:
+				if i+1 < len(lines) {
+					l += lines[i+1]
+					lines = append(lines[:i+1], lines[i+2:]...)
+				}
+			}
+			lines[i] = l
 		case 0, 1, 2, 3:
 			// mutate the value of a header line that carries parameters or an encoding
 			var cand []int
